@@ -240,9 +240,9 @@ Section Complete.
 
     Let Hhq : powm h q p = 1. Proof. apply elem_spec in Hh. tauto. Qed.
 
-    Lemma mask_spec m r : 0 <= r < q -> mask G h th m r = Some (powm g r p, (powm h r p * m) mod p).
+    Lemma mask_spec m r : 0 <= r < q -> vtmf_mask G h th m r = Some (powm g r p, (powm h r p * m) mod p).
     Proof.
-      intros Hr. unfold mask, table_g. fold p q g. rewrite Eth.
+      intros Hr. unfold vtmf_mask, table_g. fold p q g. rewrite Eth.
       now rewrite (fspowm_spec g q r p Hp Hq Hg Hr Ht), (fspowm_spec h q r p Hp Hq Hhq Hr Ht).
     Qed.
 
@@ -253,7 +253,7 @@ Section Complete.
     Qed.
 
     Theorem mask_complete m r raw c1 c2 c s : elem m -> 0 <= r < q ->
-      mask G h th m r = Some (c1, c2) ->
+      vtmf_mask G h th m r = Some (c1, c2) ->
       mask_prove H G h th m c1 c2 r raw = Some (c, s) ->
       mask_verify H hbits G h th m c1 c2 true c s = Accept.
     Proof.
